@@ -61,6 +61,7 @@ def analyse(ctx, replace=None, only=None):
     for n in need:
         if not R.require(n in fns, "anchor function %s not found" % n):
             return
+    wrappers(R, fns)
     caches(R, P, fns)
     dispatchers(R, P, fns)
     table(R, P, fns)
@@ -93,10 +94,47 @@ def chase(f, n, use=None):
         elif n["k"] == "call" and n.get("callee") in FRONT | BACK | {"aws_linked_hash_table_get_iteration_list"}:
             toks.append(n["callee"])
             n = RU.arg(f, n, 0)
+        elif n["k"] == "call" and n.get("callee") == "aws_linked_list_prev":
+            toks.append("prev")  # linked_list.inl: returns node->prev
+            n = RU.arg(f, n, 0)
         else:
             break
     obj = f.show(RU.strip_addr(f, n)) if n is not None else None
     return toks, obj
+
+
+# the cache base's default operations are the table's own, applied to cache->table (checked: wrappers())
+WRAPPED = {"aws_cache_base_default_remove": "aws_linked_hash_table_remove", "aws_cache_base_default_get_element_count": "aws_linked_hash_table_get_element_count"}
+
+
+def table_calls(f, op):
+    """[(event, table string)]: calls of the linked-hash-table operation `op` on a table, made directly or through the cache
+    base's wrapper of it"""
+    out = [(e, argstr(f, e.node, 0)) for e in f.calls(op)]
+    for w, inner in WRAPPED.items():
+        if inner == op:
+            out += [(e, argstr(f, e.node, 0) + "->table") for e in f.calls(w)]
+    return out
+
+
+def table_of(f, n):
+    """the table a call node of a table operation (or its wrapper) works on"""
+    if n is None or n["k"] != "call":
+        return None
+    if n.get("callee") in WRAPPED:
+        return argstr(f, n, 0) + "->table"
+    return argstr(f, n, 0)
+
+
+def wrappers(R, fns):
+    for w, inner in sorted(WRAPPED.items()):
+        g = fns.get(w)
+        if not R.require(g is not None, "%s not found" % w):
+            continue
+        cs = g.calls(inner)
+        ok = len(cs) == 1 and argstr(g, cs[0].node, 0) == g.params[0]["n"] + "->table" and all(argstr(g, cs[0].node, i, addr=False) == g.params[i]["n"] for i in range(1, len(g.params)))
+        ok = ok and all(r_.node["a"] and RU.origin(g, r_.node["a"][0]) is cs[0].node for r_ in g.returns())
+        R.check(ok, "POLICY", "%s:is-the-table-operation" % w, "%s()" % w, "%s(cache, ..) is %s(&cache->table, ..)" % (w, inner))
 
 
 def list_nonempty_guard(f, c_, p_, table="cache->table"):
@@ -119,7 +157,8 @@ def caches(R, P, fns):
         f = fns[name]
         dom = dominators(f)
         put = f.calls("aws_linked_hash_table_put")
-        rem = f.calls("aws_linked_hash_table_remove")
+        rem_t = table_calls(f, "aws_linked_hash_table_remove")
+        rem = [e for e, t_ in rem_t]
         R.require(len(put) == 1 and len(rem) == 1, "%s: expected one put and one remove" % name)
         if not (put and rem):
             continue
@@ -142,13 +181,14 @@ def caches(R, P, fns):
                 continue
             l, op, r = RU.origin(f, g[0], rem[0]), g[1], RU.origin(f, g[2], rem[0]) if g[2] is not None else None
             ls, rs = f.show(l), f.show(r) if r is not None else None
-            if r is not None and op == ">" and l["k"] == "call" and l.get("callee") == "aws_linked_hash_table_get_element_count" and argstr(f, l, 0) == "cache->table" and rs == "cache->max_items":
+            COUNT = ("aws_linked_hash_table_get_element_count", "aws_cache_base_default_get_element_count")
+            if r is not None and op == ">" and l["k"] == "call" and l.get("callee") in COUNT and table_of(f, l) == "cache->table" and rs == "cache->max_items":
                 kinds.append("overflow")
-            elif r is not None and op == "<" and r["k"] == "call" and r.get("callee") == "aws_linked_hash_table_get_element_count" and argstr(f, r, 0) == "cache->table" and ls == "cache->max_items":
+            elif r is not None and op == "<" and r["k"] == "call" and r.get("callee") in COUNT and table_of(f, r) == "cache->table" and ls == "cache->max_items":
                 kinds.append("overflow")
             elif list_nonempty_guard(f, c, p):
                 kinds.append("list-not-empty")  # implied by count > max_items: never skips an eviction
-            elif via_prev and l["k"] == "member" and l["f"] == "prev" and l.get("rec") == "aws_linked_list_node" and op == "!=" and (r is None or f.is_const(r) == 0):
+            elif via_prev and ((l["k"] == "member" and l["f"] == "prev" and l.get("rec") == "aws_linked_list_node") or (l["k"] == "call" and l.get("callee") == "aws_linked_list_prev")) and op == "!=" and (r is None or f.is_const(r) == 0):
                 kinds.append("has-predecessor")
             else:
                 kinds.append("other:%s %s %s" % (ls, op, rs))
@@ -163,7 +203,7 @@ def caches(R, P, fns):
         want_shape = len(toks) >= 3 and toks[0] == "key" and toks[-1] == "aws_linked_hash_table_get_iteration_list" and toks[-2] in ends and (toks[1:-2] == (["prev"] if via_prev else []))
         ok = want_shape and obj == "cache->table"
         why = "the removed key comes from %s of %s" % (" <- ".join(toks), obj)
-        R.check(ok and argstr(f, rem[0].node, 0) == "cache->table", "VICTIM", name, where(f, rem[0]), "victim is the key of %s(iteration list)%s of the same table" % (end, "->prev" if via_prev else ""),
+        R.check(ok and rem_t[0][1] == "cache->table", "VICTIM", name, where(f, rem[0]), "victim is the key of %s(iteration list)%s of the same table" % (end, "->prev" if via_prev else ""),
                 "the evicted key does not come from %s of this cache's iteration list%s (%s): the wrong entry is evicted" % (end, "->prev" if via_prev else "", why))
     # POLICY
     vt = {n: (P.globals.get(n) or {}).get("init", {}).get("struct", {}) for n in ("s_fifo_cache_vtable", "s_lifo_cache_vtable", "s_lru_cache_vtable")}
@@ -183,14 +223,16 @@ def caches(R, P, fns):
     R.check(not f.calls({"aws_linked_list_remove", "aws_linked_list_push_back", "aws_linked_hash_table_move_node_to_end_of_list"}), "POLICY", "plain-find-keeps-order", "%s()" % f.name, "plain find does not touch the list")
     f = fns["aws_linked_hash_table_find_and_move_to_back"]
     mv = f.calls("aws_linked_hash_table_move_node_to_end_of_list")
-    okmv = len(mv) == 1 and f.show(RU.origin(f, RU.arg(f, mv[0].node, 1), mv[0])) == "element->value"
+    fc_ = f.calls("aws_hash_table_find")
+    found_ = argstr(f, fc_[0].node, 2) if len(fc_) == 1 else "element"  # the variable the lookup fills in
+    okmv = len(mv) == 1 and f.show(RU.origin(f, RU.arg(f, mv[0].node, 1), mv[0])) == found_ + "->value"
     if not mv:
         # the same two steps written in place: unlink the found node, append it to this table's list
         rm_, pb_ = f.calls("aws_linked_list_remove"), f.calls("aws_linked_list_push_back")
         if len(rm_) == 1 and len(pb_) == 1 and ev_dominates(f, rm_[0], pb_[0]):
             t1, o1 = chase(f, RU.arg(f, rm_[0].node, 0), rm_[0])
             t2, o2 = chase(f, RU.arg(f, pb_[0].node, 1), pb_[0])
-            okmv = t1 == t2 == ["&node", "value"] and o1 == o2 == "element" and argstr(f, pb_[0].node, 0) == "table->list"
+            okmv = t1 == t2 == ["&node", "value"] and o1 == o2 == found_ and argstr(f, pb_[0].node, 0) == "table->list"
             mv = pb_
     R.check(okmv, "POLICY", "find-and-move:moves-found-node", where(f, mv[0]) if mv else f.name, "the found node is moved to the back")
     f = fns["s_lru_cache_use_lru_element"]
@@ -212,6 +254,21 @@ def caches(R, P, fns):
                     continue
                 names = {x.get("n") or x.get("f") or x.get("callee") for x in g_.walk(g_.d(c_), follow_refs=True) if x["k"] in ("var", "member", "call")}
                 names.discard(None)
+                if fname == "aws_linked_hash_table_find_and_move_to_back":
+                    # by role: the variable the lookup fills in, and whatever holds the lookup's own result
+                    fc2 = g_.calls("aws_hash_table_find")
+                    roles = set()
+                    if len(fc2) == 1:
+                        fv = RU.strip_addr(g_, RU.arg(g_, fc2[0].node, 2))
+                        if fv is not None and fv["k"] == "var":
+                            roles.add(fv["n"])
+                        for x in g_.walk(g_.d(c_), follow_refs=True):
+                            if x["k"] == "var" and RU.origin(g_, x) is fc2[0].node:
+                                roles.add(x["n"])
+                        roles.add("aws_hash_table_find")
+                    if not names <= roles | {"table"}:
+                        extra.append(g_.show(g_.d(c_))[:60])
+                    continue
                 if not names <= allowed | {"lru_cache", "impl"}:
                     extra.append(g_.show(g_.d(c_))[:60])
             R.check(not extra, "POLICY", "%s:move-depends-only-on-found" % fname, where(g_, e), "the entry is moved to the back whenever it was found / the list is not empty",
@@ -239,7 +296,12 @@ def caches(R, P, fns):
     R.check(len(bk_) == 1 and not fr_ and not f.calls("aws_linked_hash_table_move_node_to_end_of_list"), "POLICY", "get-mru:reads-back", "%s()" % f.name, "get-mru reads the back without reordering")
     f = fns["aws_linked_hash_table_move_node_to_end_of_list"]
     rm, pb = f.calls("aws_linked_list_remove"), f.calls("aws_linked_list_push_back")
-    R.check(len(rm) == 1 and len(pb) == 1 and ev_dominates(f, rm[0], pb[0]) and argstr(f, rm[0].node, 0) == argstr(f, pb[0].node, 1) == "node->node" and argstr(f, pb[0].node, 0) == "table->list", "POLICY",
+    dest = argstr(f, pb[0].node, 0) if pb else None
+    if not pb:
+        # linked_list.inl: push_back(list, n) is insert_before(&list->tail, n)
+        pb = [e for e in f.calls("aws_linked_list_insert_before") if argstr(f, e.node, 0).endswith(".tail")]
+        dest = argstr(f, pb[0].node, 0)[:-len(".tail")] if pb else None
+    R.check(len(rm) == 1 and len(pb) == 1 and ev_dominates(f, rm[0], pb[0]) and argstr(f, rm[0].node, 0) == argstr(f, pb[0].node, 1) == "node->node" and dest == "table->list", "POLICY",
             "move-to-end", "%s()" % f.name, "unlink then append the same node to this table's list", "move-to-end does not unlink and re-append the same node")
     if rm and pb:
         tsm = Typestate(f, 0, lambda e, s: 1 if (e is rm[0] and s == 0) else (2 if (e is pb[0] and s == 1) else s))
